@@ -71,6 +71,10 @@ def partA_cases():
             inits.append(('unset', []))
         if name == 'SocksPort':
             inits.append(('unset-with-__SocksPort', []))
+            # lines that merely contain the word "auto" are ordinary lines
+            inits.append(('one-containing-auto', ['unix:/run/tor-autostart/s']))
+            inits.append(('auto-with-options', ['auto IsolateDestAddr']))
+            inits.append(('several-one-with-auto-port', ['9050', '127.0.0.1:auto']))
         for label, vals in inits:
             for dmode in ('listed', 'not-listed', 'other-listed', 'unsupported'):
                 out.append((name, label, tuple(vals), dmode))
@@ -106,8 +110,8 @@ def run_partA(name, label, vals, dmode, extra=()):
         got = impl.read(name)
         if kind in ('comma', 'lines') and shape(got) != 'tracked-list' and got != ('unset',):
             viol.append(('list-not-tracked', feat, 'option %s reads as %s %r' % (name, shape(got), norm(got))))
-        if name == 'SocksPort' and (vals or default):
-            first = (list(vals) or default)[0]
+        first = (list(vals) or default or [''])[0]
+        if name == 'SocksPort' and (vals or default) and not first.split()[0].endswith('auto'):
             try:
                 ep = impl.cfg.socks_endpoint(w.reactor)
                 desc = ('unix', ep._path) if hasattr(ep, '_path') else ('tcp', ep._host, ep._port)
@@ -348,8 +352,42 @@ def run_reassert(name, how):
     return dict(viol=viol, obs=obs, log=['%s = %r (%s); save; append' % (name, new, how)])
 
 
+def run_midboot(changed, idx, held):
+    """another controller changes option `changed` while the view is still being built: Tor has answered the GETCONFs of the
+    options before `held` (config/names order) and announces the change before it answers GETCONF <held>.  When the
+    bootstrap is over the view shows Tor's configuration."""
+    viol = []
+    with World() as w:
+        vals = CHANGES[changed][idx]
+
+        def fn(sim):
+            sim.conf[changed] = list(vals)
+            lines = [''] + (['%s=%s' % (changed, v) for v in vals] if vals else [changed])
+            sim.event_bytes(ctlcodec.encode_event('CONF_CHANGED', 'multi', lines))
+        impl = CfgImpl(w, [(n, B_INIT[n]) for n in B_OPTIONS], mid=('GETCONF ' + held, fn))
+        if impl.boot != ['ok']:
+            return dict(viol=[('bootstrap-failed', 'mid-bootstrap-event', repr(impl.boot))], obs=('x',), log=[])
+        for n in B_OPTIONS:
+            kind = TYPES[n][1]
+            want = parse_by_type(kind, impl.sim.conf[n], None)
+            got = impl.read(n)
+            feat = kind if n != 'SocksPort' else 'portlines'
+            if not same(got, want):
+                viol.append(('read-differs-after-event', '%s/during-bootstrap' % feat,
+                             'CONF_CHANGED for %s arrived before Tor answered GETCONF %s: option %s reads %r, Tor has %r'
+                             % (changed, held, n, norm(got), impl.sim.conf[n])))
+            elif kind in ('lines', 'comma') and want != ('unset',) and shape(got) != 'tracked-list':
+                viol.append(('shape-changed', '%s/during-bootstrap' % feat, 'option %s reads as %s' % (n, shape(got))))
+        errs = w.errors()
+        if errs and not viol:
+            viol.append(('logged-error', errs[0][1], '%r' % (errs[:1],)))
+        obs = tuple(repr(norm(impl.read(n))) for n in B_OPTIONS)
+    return dict(viol=viol, obs=obs, log=['CONF_CHANGED %s=%r before the answer to GETCONF %s' % (changed, vals, held)])
+
+
 def tasks(tier, seed):
     out = [('A', i, i + 12) for i in range(0, len(partA_cases()), 12)]
+    out.append(('midboot',))
     out.append(('A2',))
     out.append(('reassert',))
     for i in range(len(events_B())):
@@ -359,6 +397,15 @@ def tasks(tier, seed):
 
 
 def run_task(param, acc):
+    if param[0] == 'midboot':
+        order = sorted(B_OPTIONS)              # config/names is served sorted: that is the order the GETCONFs go out in
+        for hi in range(1, len(order)):
+            held = order[hi]
+            for changed in order[:hi]:
+                for idx in range(len(CHANGES[changed])):
+                    r = run_midboot(changed, idx, held)
+                    rec(acc, ('midboot', changed, idx, held), r, dict(part='midboot', changed=changed, idx=idx, held=held), 3)
+        return
     if param[0] == 'reassert':
         for name in ('CommaOpt', 'LineOpt', 'SocksPort'):
             for how in ('same', 'new'):
@@ -433,6 +480,9 @@ def recB(acc, hist, r, wd=False):
 
 
 def replay(p):
+    if p.get('part') == 'midboot':
+        r = run_midboot(p['changed'], p['idx'], p['held'])
+        return dict(violations=[dict(signature='%s/%s' % (c, f), what=d) for c, f, d in r['viol']], log=r['log'])
     if p.get('part') == 'reassert':
         r = run_reassert(p['name'], p['how'])
         return dict(violations=[dict(signature='%s/%s' % (c, f), what=d) for c, f, d in r['viol']], log=r['log'])
